@@ -13,7 +13,7 @@ import ast
 from ..engine import rule
 from ..model import Undecided
 from ..cfg import dotted, call_name, is_call, simple_name, unparse, const_value, contains, enclosing
-from ..flow import Defs, depends
+from ..flow import Canon, Defs, depends
 from ..decide import table, ret_kind
 from ..util import keyword, returns_of, calls_in, inside, order_key
 
@@ -53,9 +53,11 @@ def c20a(ctx):
                   'cache_headers(no_cache=True) is reached on every path of the `not %s.cacheable` outcome' % obj, fn,
                   fail=why)
         # (ii) validators from the same object
+        cf = Canon(fn)
         for n, x in valid:
-            ed = keyword(x, 'etag_data', 1)
+            ed = cf.expr(keyword(x, 'etag_data', 1))
             ts = x.args[0] if x.args else keyword(x, 'timestamp')
+            ts = cf.expr(ts) if ts is not None else None
             ok = isinstance(ed, ast.Tuple) and len(ed.elts) == 2 and all(isinstance(e, ast.Attribute) for e in ed.elts)
             if ok:
                 bases = {unparse(e.value) for e in ed.elts} | ({unparse(ts.value)} if isinstance(ts, ast.Attribute) else {'?'})
@@ -107,44 +109,59 @@ def c20b(ctx):
     defs = Defs(fn.node)
 
     def ev(st):
-        if isinstance(st, ast.Assign) and unparse(st.targets[0]) == 'not_modified' and const_value(st.value) is True:
-            return 'set'
+        if isinstance(st, ast.Assign) and unparse(st.targets[0]) == 'self.status':
+            return '304' if const_value(st.value) == 304 else 'status-other'
+        if isinstance(st, ast.Assign) and unparse(st.targets[0]) == 'self.response':
+            return 'empty' if isinstance(st.value, (ast.List, ast.Tuple, ast.Constant)) and not getattr(st.value, 'elts', None) and \
+                const_value(st.value, '') in ('', b'', None) else 'body-other'
         return None
-    # table over the statements before the final `if not_modified`
-    body = [s for s in fn.node.body if not (isinstance(s, ast.If) and unparse(s.test) == 'not_modified')]
-    tab = ctx.rows(table(body, lambda n: 'return' if isinstance(n, ast.Return) else 'go', event_of=ev))
-    a_et = [a for a in tab.atoms if 'etag' in a.lower() and '==' in a]
-    a_ts = [a for a in tab.atoms if '_timestamp' in a and ('None' in a)]
-    a_pd = [a for a in tab.atoms if a not in a_ts and 'None' in a and 'req' not in a and 'etag' not in a.lower()]
-    a_cmp = [a for a in tab.atoms if ' < ' in a and '_timestamp' in a]
-    if not (len(a_et) == 1 and len(a_ts) == 1 and len(a_pd) == 1 and len(a_cmp) == 1):
+    # abstract run of the whole method (the not-modified flag, however it is called or computed, is followed)
+    tab = ctx.rows(table(fn.node.body, lambda n: 'return' if isinstance(n, ast.Return) else 'go', event_of=ev))
+    objs = tab.atom_objs
+    parsed_names = {k for k, ds in defs.defs.items() if any(contains(v, lambda x: is_call(x, 'parse_httpdate')) for v, sel in ds)}
+    a_req = [a for a in tab.atoms if objs[a].op == '==' and {unparse(objs[a].left), unparse(objs[a].right)} == {fn.params[1], 'None'}]
+    a_et = [a for a in tab.atoms if 'etag' in a.lower() and objs[a].op == '==']
+    a_ts = [a for a in tab.atoms if '_timestamp' in a and objs[a].op == '==' and 'None' in a]
+    a_pd = [a for a in tab.atoms if objs[a].op == '==' and 'None' in a and
+            ({unparse(objs[a].left), unparse(objs[a].right)} & parsed_names or 'parse_httpdate' in a)]
+    a_cmp = [a for a in tab.atoms if objs[a].op == '<' and '_timestamp' in a]
+    rows_ok = False
+    if not (len(a_et) == 1 and len(a_ts) == 1 and len(a_pd) == 1 and len(a_cmp) == 1 and len(a_req) <= 1):
         ctx.bad('Response.make_conditional:table', 'expected atoms etag==If-None-Match, _timestamp is None, parsed date is None, '
                 'timestamp comparison; found %s' % tab.atoms, fn)
     else:
-        at = tab.atom_objs[a_cmp[0]]
-        # canonical '<': either  date < self._timestamp  (304 when False)  or  self._timestamp < date (304 when True)
-        newer_when = None
-        if '_timestamp' in unparse(at.right):
-            newer_when = True     # date < ts  == modified since
-        elif '_timestamp' in unparse(at.left):
-            newer_when = None
+        at = objs[a_cmp[0]]
         bad = []
+        st_bad, body_bad, other = [], [], []
         for asg, out, events in tab.assignments():
-            if out == 'return':
+            if a_req and asg[a_req[0]]:
+                if events:
+                    other.append(asg)
                 continue
             etag = asg[a_et[0]]
             ts_known = not asg[a_ts[0]]
             parsed = not asg[a_pd[0]]
             if '_timestamp' in unparse(at.right):
-                not_newer = not asg[a_cmp[0]]
+                not_newer = not asg[a_cmp[0]]    # date < ts == modified since
             else:
                 not_newer = asg[a_cmp[0]]        # ts < date : strictly older (also sound)
             want = etag or (ts_known and parsed and not_newer)
-            if ('set' in events) != want:
+            if ('304' in events) != want:
                 bad.append((asg, events))
+            if want and '304' not in events:
+                st_bad.append(asg)
+            if want and 'empty' not in events:
+                body_bad.append(asg)
+            if 'status-other' in events or (not want and ('304' in events or 'empty' in events or 'body-other' in events)):
+                other.append(asg)
+        rows_ok = not bad
         ctx.check(not bad, 'Response.make_conditional:table',
                   '304 <=> ETag equals If-None-Match, or (timestamp known and date parsed and timestamp not newer than the date) (%d rows)' % len(tab.rows),
                   fn, fail='make_conditional marks the response not-modified for other header combinations, e.g. %s' % (bad[:1],))
+        ctx.check(not st_bad, 'Response.make_conditional:status-304', 'not modified => status 304', fn)
+        ctx.check(not body_bad, 'Response.make_conditional:empty-body', 'not modified => the body is emptied', fn,
+                  fail='a 304 response keeps its body')
+        ctx.check(not other, 'Response.make_conditional:status-only-there', 'status and body are changed for no other combination', fn)
     # default of the If-None-Match lookup
     gets = [x for x in fn.walk() if is_call(x, 'get') and x.args and const_value(x.args[0]) == 'HTTP_IF_NONE_MATCH']
     ok = bool(gets)
@@ -154,22 +171,6 @@ def c20b(ctx):
         ok = ok and v != 'nonconst' and v is not None and not isinstance(v, str)
     ctx.check(ok, 'Response.make_conditional:inm-default', 'the default for a missing If-None-Match can equal no ETag (neither None nor a string)', fn,
               fail='a missing If-None-Match header defaults to a value that equals the ETag of a response without ETag (None): 304 without any validator')
-    # 304 branch: status and empty body
-    fin = [s for s in fn.node.body if isinstance(s, ast.If) and unparse(s.test) == 'not_modified']
-    ok = bool(fin)
-    st304 = body0 = False
-    if ok:
-        for s in fin[0].body:
-            if isinstance(s, ast.Assign) and unparse(s.targets[0]) == 'self.status' and const_value(s.value) == 304:
-                st304 = True
-            if isinstance(s, ast.Assign) and unparse(s.targets[0]) == 'self.response' and isinstance(s.value, (ast.List, ast.Tuple, ast.Constant)) \
-                    and not getattr(s.value, 'elts', None) and const_value(s.value, '') in ('', b'', None):
-                body0 = True
-    ctx.check(st304, 'Response.make_conditional:status-304', 'not modified => status 304', fn)
-    ctx.check(body0, 'Response.make_conditional:empty-body', 'not modified => the body is emptied', fn,
-              fail='a 304 response keeps its body')
-    ok = not any(isinstance(s, ast.Assign) and unparse(s.targets[0]) in ('self.status',) and not inside(s, fin[0]) for s in fn.walk()) if fin else False
-    ctx.check(ok, 'Response.make_conditional:status-only-there', 'the status is changed nowhere else', fn)
     pd = ctx.fn('mapproxy/util/times.py:parse_httpdate')
     g2 = pd.cfg
     ok = any(isinstance(s, ast.If) and contains(s.test, lambda x: isinstance(x, ast.Constant) and x.value is None) and
@@ -293,12 +294,15 @@ def c20g(ctx):
     ctx.check(ok, 'parse_httpdate:none-iff-unparsable', 'None is returned exactly when the date could not be parsed', pd,
               fail='parse_httpdate returns a timestamp for an unparsable date (or None for a valid one): If-Modified-Since is evaluated against garbage')
     mc = ctx.fn('mapproxy/response.py:Response.make_conditional')
-    defs = Defs(mc.node)
-    ts = [v for v, sel in defs.of('timestamp')]
-    ok = len(ts) == 1 and is_call(ts[0], 'parse_httpdate') and isinstance(ts[0].args[0], ast.Name)
-    if ok:
-        d = defs.of(ts[0].args[0].id)
-        ok = len(d) == 1 and is_call(d[0][0], 'environ.get') and const_value(d[0][0].args[0]) == 'HTTP_IF_MODIFIED_SINCE'
+    cf = Canon(mc)
+    cmps = [c for c in mc.walk() if isinstance(c, ast.Compare) and len(c.ops) == 1 and isinstance(c.ops[0], (ast.Lt, ast.LtE, ast.Gt, ast.GtE)) and
+            '_timestamp' in unparse(c)]
+    ok = bool(cmps)
+    for c in cmps:
+        other = c.comparators[0] if '_timestamp' in unparse(c.left) else c.left
+        v = cf.expr(other)
+        ok = ok and is_call(v, 'parse_httpdate') and len(v.args) == 1 and is_call(v.args[0], 'get') and \
+            const_value(v.args[0].args[0]) == 'HTTP_IF_MODIFIED_SINCE' and 'environ' in unparse(v.args[0].func.value)
     ctx.check(ok, 'Response.make_conditional:ims-source', 'the date compared is parse_httpdate(If-Modified-Since header)', mc)
 
 
